@@ -60,6 +60,9 @@ func (f *Font) Write(w io.Writer, opt *WriterOptions) error {
 		format = FormatPFA
 	}
 
+	if err := f.checkGlyphNames(); err != nil {
+		return err
+	}
 	info := f.makeTemplateData(opt)
 
 	switch format {
@@ -186,6 +189,9 @@ func (f *Font) Write(w io.Writer, opt *WriterOptions) error {
 
 // WritePDF writes the font in the format required for embedding in a PDF file.
 func (f *Font) WritePDF(w io.Writer) (int, int, error) {
+	if err := f.checkGlyphNames(); err != nil {
+		return 0, 0, err
+	}
 	opt := &WriterOptions{Format: FormatBinary}
 	info := f.makeTemplateData(opt)
 
@@ -223,6 +229,25 @@ func (w *countingWriter) Write(p []byte) (n int, err error) {
 	n, err = w.w.Write(p)
 	w.n += n
 	return n, err
+}
+
+// reservedGlyphNames lists the names which the font program executes while
+// CharStrings is the current dictionary.  A glyph with one of these names
+// would hide the procedure or operator from the rest of the font program,
+// and the resulting file could not be read.
+var reservedGlyphNames = map[string]bool{
+	"RD": true, "ND": true,
+	"string": true, "currentfile": true, "exch": true, "readstring": true, "pop": true,
+	"def": true, "end": true,
+}
+
+func (f *Font) checkGlyphNames() error {
+	for _, name := range f.GlyphList() {
+		if reservedGlyphNames[name] {
+			return fmt.Errorf("type1: glyph name %q cannot be used in a font program", name)
+		}
+	}
+	return nil
 }
 
 func (f *Font) makeTemplateData(opt *WriterOptions) *fontInfo {
